@@ -25,6 +25,7 @@ structure PS where
   failed : Bool := false
   steps : Nat := 0
   cs : List Choice := []      -- the choices replayed so far, newest first
+  spurs : Nat := 0
 
 def kindOf (t : Tok) : String :=
   match t.kind with
@@ -71,7 +72,7 @@ def mapIds (p : PS) (l : List Int) : List Int := l.map (fun r => p.ids.getD r.to
 
 def step (p : PS) (t : List String) : PS × String :=
   match t with
-  | ["begin", m] => ({ s := {}, M := nat! m, ids := #[], on := true, failed := false, steps := 0, cs := [] }, "ok")
+  | ["begin", m] => ({ s := {}, M := nat! m, ids := #[], on := true, failed := false, steps := 0, cs := [], spurs := 0 }, "ok")
   | ["scope"] =>
     -- which proved scope the replayed choice sequence is in (Props.C02sys.chainScope_iff)
     if p.failed then (p, "ok")
@@ -96,6 +97,15 @@ def step (p : PS) (t : List String) : PS × String :=
       match headCheck p s!"the input of worker {w}" (p.s.wk (nat! w)).inq (int! id) (nat! r) k with
       | some m => reject p m
       | none => doStep p (.bpRecv (nat! w) (ov == "1")) s!"bpRecv of worker {w}"
+    | ["spur", w] =>
+      -- PROJECTION of a run with several partitions on one of them: the worker hands a set to the bridge that holds
+      -- no message of this partition.  `Model.Pipeline` (one partition) allows an empty set only after the `stale`
+      -- defect; the replay arms it here.  Not a choice of the proved model (open: a `spur` choice, see lib/props_C02.py).
+      let k := nat! w
+      let wk := p.s.wk k
+      let b : BrokerProd.St := { wk.bp with stale := true }
+      let s' : Sys := { p.s with wk := setW p.s.wk k ⟨wk.inq, b, wk.pend⟩ }
+      ({ p with s := s', spurs := p.spurs + 1 }, "ok")
     | ["handover", w] => doStep p (.handover (nat! w)) s!"handover of worker {w}"
     | ["leader", b] => doStep p (.moveLeader (nat! b)) "moveLeader"
     | ["broker", w, v, app] =>
